@@ -406,6 +406,25 @@ def rule_e(ctx):
     r = ent.get("rtol")
     ok = isinstance(r, ast.Call) and isinstance(r.func, ast.Attribute) and r.func.attr == "get" and len(r.args) == 2 and isinstance(r.args[0], ast.Constant) and r.args[0].value == "rtol"
     ctx.ob(R, f.qname, "cg: rtol is read from the option of that name", ok, norm(r) if r is not None else "no rtol entry", dicts[0])
+    # the Krylov solver is capped at a fixed number of iterations and its convergence flag is dropped by the wrapper: it reaches the
+    # tolerance of the other back-ends only with the AMG preconditioner, which must therefore be handed over on every path
+    M = ent.get("M")
+    if M is None:
+        ctx.ob(R, f.qname, "cg: the AMG preconditioner is handed to the Krylov solver on every path", False, "option 'M' not found in self.solver_options", dicts[0])
+    else:
+        can_be_none = any(isinstance(x, ast.Constant) and x.value is None for x in ast.walk(M))
+        is_prec = any(isinstance(x, ast.Call) and isinstance(x.func, ast.Attribute) and x.func.attr == "aspreconditioner" for x in ast.walk(M))
+        if not can_be_none and not is_prec and isinstance(dicts[0].value.values[[k.value for k in dicts[0].value.keys if isinstance(k, ast.Constant)].index("M")], ast.Name):
+            nm = dicts[0].value.values[[k.value for k in dicts[0].value.keys if isinstance(k, ast.Constant)].index("M")].id
+            defs_ = [a_.value for a_ in ast.walk(f.node) if isinstance(a_, ast.Assign) and any(isinstance(t, ast.Name) and t.id == nm for t in a_.targets)]
+            can_be_none = any(isinstance(x, ast.Constant) and x.value is None for d_ in defs_ for x in ast.walk(d_))
+            is_prec = any(isinstance(x, ast.Call) and isinstance(x.func, ast.Attribute) and x.func.attr == "aspreconditioner" for d_ in defs_ for x in ast.walk(d_))
+        if can_be_none:
+            ctx.ob(R, f.qname, "cg: the AMG preconditioner is handed to the Krylov solver on every path", False,
+                   f"M = {norm(M)[:110]} can be None: plain conjugate gradients under the fixed iteration cap do not reach the tolerance for strongly varying weights, and "
+                   "the wrapper drops scipy's convergence flag -- the unconverged iterate is returned as the solution", dicts[0], evidence=True)
+        else:
+            ctx.ob(R, f.qname, "cg: the AMG preconditioner is handed to the Krylov solver on every path", is_prec, f"M = {norm(M)[:110]}: preconditioner not found", dicts[0])
     ctx.floor(R, 1)
 
 
